@@ -202,12 +202,9 @@ class EnvBase:
             if what == "cg":
                 # (n, 1) view of the caller's array (the operator is applied to a matrix); P: a caller-owned preconditioner
                 a = cola.CG(x0=self.arr[f"x0{n}"][:, None], P=self.partner("diag", n), max_iters=6, tol=1e-9)
-            elif what == "cg_nox0":                                                       # for kinds whose inv rule hands `alg` to
-                a = cola.CG(max_iters=6, tol=1e-9)                                        # members of a different size
             elif what == "gmres":
-                a = cola.GMRES(x0=self.arr[f"x0{n}"][:, None], max_iters=3, tol=1e-9)   # max_iters < n = 4: at m >= n the Krylov
-            elif what == "gmres_nox0":                                                     # space is exhausted by construction
-                a = cola.GMRES(max_iters=3, tol=1e-9)
+                # max_iters < n = 4: at m >= n the Krylov space is exhausted by construction
+                a = cola.GMRES(x0=self.arr[f"x0{n}"][:, None], max_iters=3, tol=1e-9)
             elif what == "arnoldi":
                 a = cola.Arnoldi(start_vector=self.arr[f"v{n}"], max_iters=3)
             elif what == "lanczos_sv":
@@ -715,11 +712,13 @@ def _(env, A, last):
 
 @op("inv_gmres")
 def _(env, A, last):
-    # an x0 of size n cannot be handed to the members of a Kronecker / BlockDiag (their inv rules pass `alg` on): there the
-    # caller's Algorithm object without x0
+    # The inv rules of Kronecker / BlockDiag (also below a Product / Transpose / Adjoint) pass `alg` on to members of another
+    # size: an x0 of size n does not fit them, and the members' systems (m >= their dimension, zero columns of the reshaped
+    # right-hand side: recorded C06 gmres-zero-rhs-column / gmres-krylov-breakdown) are not this property's subject — there, and
+    # where A is numerically singular or its Krylov space is exhausted, GMRES runs on the regularised Sum Aᴴ A + M built from A
     rhs = _rhs(env, A, last)
-    R = regular_operand(env, A, rhs, 3, None if x0_unfit(A) else env.arr[f"x0{_n(A)}"])
-    Ai = cola.inv(R, env.alg("gmres_nox0" if x0_unfit(R) else "gmres", _n(A)))
+    R = A.H @ A + env.partner("dense", _n(A)) if x0_unfit(A) else regular_operand(env, A, rhs, 3, env.arr[f"x0{_n(A)}"])
+    Ai = cola.inv(R, env.alg("gmres", _n(A)))
     return Ai @ rhs
 
 
